@@ -129,10 +129,13 @@ CLAIMS['C10'] = dict(
           "Ok/Err, error variant and the declaration named. Also proved for every container: C10_never_panics / "
           "C10_zero_size_never_panics (validation and the zero-size analysis are total: no panic, no fuel "
           "exhaustion), C10_error_is_real (a reported error names a declaration whose own definition has exactly "
-          "that defect; a missing name is absent). Partial: the iff with the declarative well-formedness predicate "
-          "wellFormedDec (least fixed point of zero-sizedness, reachability) is evaluated per case by the contval "
-          "verdict lines, not proved."),
-    technique="Lean 4 model of validate/is_zero_size with kernel-checked lemmas + differential check on generated containers",
+          "that defect; a missing name is absent), C10_validate_ok_iff_wellformed (validate() = Ok iff no "
+          "declaration reachable from the root has a defect - WellFormed, stated with inductive reachability and "
+          "zero-sizedness as existence of a finite derivation, no fuel or stacks), C10_zero_size_iff (is_zero_size "
+          "answers Ok(true) exactly on the zero-sized declarations). The executable predicate wellFormedDec used by "
+          "the contval verdict lines is a second, independent formulation (iterated fixed points); its agreement "
+          "with WellFormed is checked per case, not proved."),
+    technique="Lean 4 proof (validate = Ok iff declarative well-formedness, totality, error soundness; every container) + differential check on generated containers",
     design_ref="§5 C10")
 CLAIMS['C14'] = dict(
     text=("Kernel-checked theorems for every owned collection kind: C14_ser_refused_{seq,deque,set,map} (refused with "
